@@ -76,6 +76,23 @@ func init() {
 		},
 	})
 	register(&Property{
+		ID: "C10",
+		Explanation: "Decides three shapes behind 'the reported counts and sizes agree with the repository', not the arithmetic and not the state of the index after prune: (prune-stats-pairing) while packInfoFromIndex and decidePackAction classify blobs and packs, every update of a blob counter stats.Blobs.X (Used, Unused, Duplicate, Remove, Repack, Repackrm) sits in one basic block with an update of the byte counter stats.Size.X in the same direction, and a term read from a pack's ...Blobs field on the count side is the ...Size field of the same kind (used/unused) on the size side; a pack is inserted into the remove or ignore set only in a block that raises Blobs.Remove and Size.Remove, into the repack set only where Blobs.Repack, Size.Repack, Blobs.Repackrm and Size.Repackrm are raised; the reported numbers of unreferenced packs, packs to repack and packs to remove are len() of the very sets the returned PrunePlan carries and Execute acts on. Not decided: that after prune the index holds no unreachable blob, no duplicate, no pack without entry and no entry for a missing pack (C09 decides the orderings of that sequence), the totals derived by arithmetic (Total, Remain, RemoveTotal, RemainUnused), sizes reported by the backend listing, and the statistics printed by cmd_prune. Planned as not applicable in DESIGN section 4; claimed at level 'other' for exactly these clauses.",
+		Assumptions: commonAssumptions,
+		Technique:   "static analysis: block-local pairing of field updates, term-kind comparison, provenance of reported set sizes (go/ssa)",
+		Run:         func(c *eng.Ctx) { rulePruneStatsPairing(c) },
+		Controls: []Control{
+			{Name: "unused-pack-size-counted-as-used", File: "internal/repository/prune.go",
+				Old: "			removePacks.Insert(id)\n			stats.Blobs.Remove += p.unusedBlobs\n			stats.Size.Remove += p.unusedSize\n", New: "			removePacks.Insert(id)\n			stats.Blobs.Remove += p.unusedBlobs\n			stats.Size.Remove += p.usedSize\n", Rule: "prune-stats-pairing"},
+			{Name: "ignored-pack-not-counted", File: "internal/repository/prune.go",
+				Old: "			ignorePacks.Insert(id)\n			stats.Blobs.Remove += p.unusedBlobs\n			stats.Size.Remove += p.unusedSize\n", New: "			ignorePacks.Insert(id)\n", Rule: "prune-stats-pairing"},
+			{Name: "duplicate-size-not-moved-back", File: "internal/repository/prune.go",
+				Old: "				stats.Size.Duplicate -= size\n				stats.Blobs.Duplicate--\n", New: "				stats.Blobs.Duplicate--\n", Rule: "prune-stats-pairing"},
+			{Name: "repack-count-from-candidates", File: "internal/repository/prune.go",
+				Old: "	stats.Packs.Repack = uint(len(repackPacks))\n", New: "	stats.Packs.Repack = uint(len(repackCandidates))\n", Rule: "prune-stats-pairing"},
+		},
+	})
+	register(&Property{
 		ID: "C09",
 		Explanation: "Decides strong necessary conditions that hold for every crash prefix and option combination of prune: (execute-order) in PrunePlan.Execute the repacked packs enter removePacks only through Merge(repackPacks) behind the success edge of WithBlobUploader(CopyBlobs…), removePacks is deleted only on paths that crossed rewriteIndexFiles' success edge, the unsafe-recovery index deletion's success edge, or the zero-length test of ignorePacks taken after ignorePacks ⊇ removePacks was established (the infeasible-path trap of plain dominance), and only after keepBlobs.Len()==0 following a repack; the rewrite excludes exactly ignorePacks; (rewrite-order) MasterIndex.Rewrite removes obsolete index files only after wg.Wait()==nil for the savers, SaveFallback returns the save error; (used-blobs-errors) snapshot/tree load errors and item.Error abort getUsedBlobs/FindUsedBlobs and propagate to PlanPrune; (missing-abort) packInfoFromIndex succeeds only if no used blob is missing from the index and decidePackAction runs only after both succeeded; (ignored-errors-allowlist) the only discarded errors in Execute are the two pack deletions; (pack-removers) all removal call sites of the program are enumerated: PackFile is removed only by Execute and RepairPacks, other sites forward a parameter, no direct backend removal of a pack exists, and compile-fail witnesses show that code outside package repository cannot pass PackFile/IndexFile/KeyFile/LockFile/ConfigFile to Save/RemoveUnpacked. (kept-pack-predicate) PlanPrune drops a blob from keepBlobs ('another copy is in a kept pack') only for a pack that is in none of PrunePlan's pack-ID sets — removePacks, repackPacks, ignorePacks, enumerated from the struct — because members of every one of them do not survive the prune; this rule was written for the genuine defect found in this place (packs missing from the repository counted as kept, so the last surviving copy of a duplicated blob was neither carried over nor kept), now fixed. Not decided: correctness of duplicate selection and of the remaining keepBlobs arithmetic; bit-identical restorability itself.",
 		Assumptions: append([]string{"errgroup.Wait returns the first error of its goroutines"}, commonAssumptions...),
